@@ -523,9 +523,9 @@ def Disk.StepOk (d : Disk) : MOp → Prop
       checkRefname (realname d.readRef n) = true ∧ d.PathClear (realname d.readRef n)
   | .addIfNew n v => validRefValue v = true ∧
       (match follow d.readRef n with
-        | .ok (names, _) => checkRefname ((names.getLast?).getD n) = true ∧ d.PathClear ((names.getLast?).getD n)
-        | .error _ => True) ∧
-      d.packed.get n = none
+        | .ok (names, c) => checkRefname ((names.getLast?).getD n) = true ∧ d.PathClear ((names.getLast?).getD n) ∧
+            (c = none → d.packed.get n = none)   -- as coded: the packed probe uses `name`, not the resolved name
+        | .error _ => True)
   | .removeIfEquals n _ => checkRefname n = true ∧ (∀ p ∈ ancestors n, d.files.get p = none) ∧ n ∉ d.dirs
   | .setSymbolicRef n t => checkRefname n = true ∧ checkRefname t = true ∧ d.lockNoMkdirs n = .ok () ∧
       (match follow d.readRef n with | .ok _ => True | .error _ => False) ∧ n ∉ d.dirs
@@ -535,7 +535,7 @@ def Disk.StepOk (d : Disk) : MOp → Prop
 instance (d : Disk) (op : MOp) : Decidable (d.StepOk op) := by
   cases op <;> unfold Disk.StepOk
   · infer_instance
-  · refine @instDecidableAnd _ _ _ (@instDecidableAnd _ _ ?_ _)
+  · refine @instDecidableAnd _ _ _ ?_
     split <;> infer_instance
   · infer_instance
   · refine @instDecidableAnd _ _ _ (@instDecidableAnd _ _ _ (@instDecidableAnd _ _ _ (@instDecidableAnd _ _ ?_ _)))
@@ -554,5 +554,400 @@ def Disk.decAllOk : ∀ (ops : List MOp) (d : Disk), Decidable (d.AllOk ops)
     (inferInstance : Decidable (d.StepOk op ∧ (d.step op).2.AllOk ops))
 
 instance (d : Disk) (ops : List MOp) : Decidable (d.AllOk ops) := Disk.decAllOk ops d
+
+/-! ### the symref-free fragment over a universe of non-colliding names -/
+
+/-- the directories `git init` creates below the git dir -/
+def baseDirs : List Bytes := [b!"refs", b!"refs/heads", b!"refs/tags"]
+
+/-- no name of the universe is a directory on the way to another one -/
+def NonColliding (U : List Name) : Prop := ∀ a ∈ U, ∀ b ∈ U, a ∉ ancestors b
+
+theorem hex_not_symref {v : Val} (h : validHexSha v = true) : symref.isPrefixOf v = false := by
+  unfold validHexSha at h
+  simp only [Bool.and_eq_true, List.all_eq_true] at h
+  cases v with
+  | nil => exact absurd h.1 (by decide)
+  | cons b r =>
+    have hb := h.2 b (by simp)
+    have : b ≠ 114 := by intro hh; subst hh; revert hb; decide
+    simp [symref, List.isPrefixOf, this.symm]
+
+theorem Disk.cleanupParents_dirs : ∀ (fuel : Nat) (d : Disk) (n : Bytes),
+    ∀ x ∈ (Disk.cleanupParents fuel d n).dirs, x ∈ d.dirs := by
+  intro fuel
+  induction fuel with
+  | zero => intro d n x hx; exact hx
+  | succ fuel ih =>
+    intro d n x hx
+    unfold Disk.cleanupParents at hx
+    split at hx
+    · exact hx
+    · split at hx
+      · exact hx
+      · split at hx
+        · have := ih _ _ x hx
+          simp only [List.mem_filter] at this
+          exact this.1
+        · exact hx
+
+def MOp.names : MOp → List Name
+  | .setIfEquals n _ _ => [n]
+  | .addIfNew n _ => [n]
+  | .removeIfEquals n _ => [n]
+  | .setSymbolicRef n t => [n, t]
+  | .packRefs _ => []
+  | .reopen => []
+
+/-- invariant of the symref-free fragment over a universe `U`: only names of `U` are stored (loose,
+packed or both), all with hex-sha values; only directories on the way to names of `U` exist -/
+structure Disk.Inv (U : List Name) (d : Disk) : Prop where
+  files_in : ∀ k v, d.files.get k = some v → k ∈ U ∧ validHexSha v = true
+  packed_in : ∀ k v, d.packed.get k = some v → k ∈ U ∧ validHexSha v = true
+  dirs_in : ∀ x ∈ d.dirs, x ∈ baseDirs ∨ ∃ u ∈ U, x ∈ ancestors u
+
+theorem hex_ne_nil {v : Val} (h : validHexSha v = true) : v ≠ [] :=
+  validRefValue_ne_nil (by simp [validRefValue, h])
+
+theorem Disk.Inv.wf {U : List Name} {d : Disk} (hi : Disk.Inv U d) : d.WF :=
+  fun k v h => hex_ne_nil (hi.files_in k v h).2
+
+theorem Disk.Inv.readRef_hex {U : List Name} {d : Disk} (hi : Disk.Inv U d) (n : Name) :
+    ∀ c, d.readRef n = some c → validHexSha c = true := by
+  intro c hc
+  unfold Disk.readRef Disk.readLoose at hc
+  have hp : ∀ c, d.packed.get n = some c → validHexSha c = true := fun c h => (hi.packed_in n c h).2
+  split at hc
+  · cases hg : d.files.get n with
+    | none => rw [hg] at hc; exact hp c hc
+    | some v =>
+      rw [hg, readRefOf_some (hi.wf n v hg)] at hc
+      injection hc with hc; subst hc
+      exact (hi.files_in n v hg).2
+  · exact hp c hc
+
+theorem Disk.Inv.readRef_direct {U : List Name} {d : Disk} (hi : Disk.Inv U d) (n : Name) :
+    ∀ c, d.readRef n = some c → ¬ symref.isPrefixOf c = true := by
+  intro c hc
+  simp [hex_not_symref (hi.readRef_hex n c hc)]
+
+theorem Disk.lockMkdirs_inv {U : List Name} {d d1 : Disk} {r : Name} (h : d.lockMkdirs r = .ok d1) (hr : r ∈ U)
+    (hi : Disk.Inv U d) : Disk.Inv U d1 := by
+  unfold Disk.lockMkdirs at h
+  split at h
+  · cases h
+  · injection h with h; subst h
+    refine ⟨hi.files_in, hi.packed_in, ?_⟩
+    intro x hx
+    rw [mem_addDirs] at hx
+    rcases hx with hx | hx
+    · exact hi.dirs_in x hx
+    · exact Or.inr ⟨r, hr, hx⟩
+
+theorem Disk.commitFile_inv {U : List Name} {d d2 : Disk} {r : Name} {v : Val} (h : d.commitFile r v = .ok d2)
+    (hr : r ∈ U) (hv : validHexSha v = true) (hi : Disk.Inv U d) : Disk.Inv U d2 := by
+  unfold Disk.commitFile at h
+  split at h
+  · cases h
+  · injection h with h; subst h
+    refine ⟨?_, hi.packed_in, hi.dirs_in⟩
+    intro k c hk
+    simp only at hk
+    by_cases hkr : k = r
+    · subst hkr; rw [Map.get_set_eq] at hk; injection hk with hk; subst hk; exact ⟨hr, hv⟩
+    · rw [Map.get_set_ne _ _ _ _ hkr] at hk; exact hi.files_in k c hk
+
+theorem Disk.cleanupParents_packed : ∀ (fuel : Nat) (d : Disk) (n : Bytes),
+    (Disk.cleanupParents fuel d n).packed = d.packed := by
+  intro fuel
+  induction fuel with
+  | zero => intro d n; rfl
+  | succ fuel ih =>
+    intro d n
+    unfold Disk.cleanupParents
+    split
+    · rfl
+    · split
+      · rfl
+      · split
+        · rw [ih]
+        · rfl
+
+theorem Disk.remove_inv {U : List Name} {d : Disk} (n : Name) (hi : Disk.Inv U d) :
+    Disk.Inv U (Disk.cleanupParents n.length (({ d with files := d.files.del n } : Disk).removePacked n) n) := by
+  have hfiles : (({ d with files := d.files.del n } : Disk).removePacked n).files = d.files.del n := by
+    unfold Disk.removePacked; split <;> rfl
+  have hdirs : (({ d with files := d.files.del n } : Disk).removePacked n).dirs = d.dirs := by
+    unfold Disk.removePacked; split <;> rfl
+  have hpacked : ∀ k v, (({ d with files := d.files.del n } : Disk).removePacked n).packed.get k = some v →
+      d.packed.get k = some v := by
+    intro k v hk
+    unfold Disk.removePacked at hk
+    split at hk
+    · simp only at hk
+      by_cases hkn : k = n
+      · subst hkn; rw [Map.get_del_eq] at hk; cases hk
+      · rw [Map.get_del_ne _ _ _ hkn] at hk; exact hk
+    · exact hk
+  refine ⟨?_, ?_, ?_⟩
+  · intro k v hk
+    rw [Disk.cleanupParents_files, hfiles] at hk
+    by_cases hkn : k = n
+    · subst hkn; rw [Map.get_del_eq] at hk; cases hk
+    · rw [Map.get_del_ne _ _ _ hkn] at hk; exact hi.files_in k v hk
+  · intro k v hk
+    rw [Disk.cleanupParents_packed] at hk
+    exact hi.packed_in k v (hpacked k v hk)
+  · intro x hx
+    have := Disk.cleanupParents_dirs _ _ _ x hx
+    rw [hdirs] at this
+    exact hi.dirs_in x this
+
+/-- operations of the symref-free fragment: values are hex shas, no `set_symbolic_ref` -/
+def MOp.Direct : MOp → Prop
+  | .setIfEquals _ _ v => validHexSha v = true
+  | .addIfNew _ v => validHexSha v = true
+  | .removeIfEquals _ _ => True
+  | .packRefs _ => True
+  | .reopen => True
+  | .setSymbolicRef _ _ => False
+
+theorem Disk.Inv.pathClear {U : List Name} {d : Disk} (hi : Disk.Inv U d) (hU : ∀ n ∈ U, checkRefname n = true)
+    (hnc : NonColliding U) {n : Name} (hn : n ∈ U) : d.PathClear n := by
+  refine ⟨?_, ?_⟩
+  · intro p hp
+    constructor
+    · cases hg : d.files.get p with
+      | none => rfl
+      | some v => exact absurd hp (hnc p (hi.files_in p v hg).1 n hn)
+    · cases hg : d.packed.get p with
+      | none => rfl
+      | some v => exact absurd hp (hnc p (hi.packed_in p v hg).1 n hn)
+  · intro hd
+    rcases hi.dirs_in n hd with hb | ⟨u, hu, hau⟩
+    · have := hU n hn
+      simp only [baseDirs, List.mem_cons, List.not_mem_nil, or_false] at hb
+      rcases hb with rfl | rfl | rfl <;> exact absurd this (by decide)
+    · exact hnc n hn u hu hau
+
+theorem mem_dedup (x : Bytes) : ∀ (l : List Bytes), x ∈ dedup l → x ∈ l := by
+  intro l
+  induction l with
+  | nil => intro h; exact h
+  | cons a r ih =>
+    intro h
+    unfold dedup at h
+    split at h
+    · exact List.mem_cons_of_mem _ (ih h)
+    · simp only [List.mem_cons] at h ⊢
+      rcases h with h | h
+      · exact Or.inl h
+      · exact Or.inr (ih h)
+
+theorem mem_keys_get (k : Bytes) : ∀ (m : Map), k ∈ m.keys → ∃ v, m.get k = some v := by
+  intro m
+  induction m with
+  | nil => intro h; simp [Map.keys] at h
+  | cons e r ih =>
+    intro h
+    obtain ⟨k', v⟩ := e
+    simp only [Map.keys, List.map_cons, List.mem_cons] at h
+    by_cases hk : k' = k
+    · exact ⟨v, by simp [Map.get, hk]⟩
+    · rcases h with h | h
+      · exact absurd h.symm hk
+      · obtain ⟨w, hw⟩ := ih (by simpa [Map.keys] using h)
+        exact ⟨w, by simp [Map.get, hk, hw]⟩
+
+theorem Disk.Inv.allKeys_in {U : List Name} {d : Disk} (hi : Disk.Inv U d) {k : Name} (hk : k ∈ d.allKeys)
+    (hne : k ≠ headRef) : k ∈ U := by
+  unfold Disk.allKeys at hk
+  have := mem_dedup k _ hk
+  simp only [List.mem_append, List.mem_filter] at this
+  rcases this with (h | h) | h
+  · split at h
+    · simp only [List.mem_singleton] at h; exact absurd h hne
+    · cases h
+  · obtain ⟨v, hv⟩ := mem_keys_get k _ h.1
+    exact (hi.files_in k v hv).1
+  · obtain ⟨v, hv⟩ := mem_keys_get k _ h
+    exact (hi.packed_in k v hv).1
+
+theorem packSelect_mem (d : Disk) (all : Bool) : ∀ (keys : List Name) (l : List (Name × Val)),
+    Disk.packSelect d all keys = .ok l → ∀ p ∈ l, p.1 ∈ keys ∧ p.1 ≠ headRef := by
+  intro keys
+  induction keys with
+  | nil => intro l h; simp [Disk.packSelect] at h; subst h; simp
+  | cons k rest ih =>
+    intro l h
+    have hrest : ∀ l', Disk.packSelect d all rest = .ok l' → ∀ p ∈ l', p.1 ∈ k :: rest ∧ p.1 ≠ headRef :=
+      fun l' hl' p hp => ⟨List.mem_cons_of_mem _ (ih l' hl' p hp).1, (ih l' hl' p hp).2⟩
+    unfold Disk.packSelect at h
+    split at h
+    · exact hrest l h
+    · rename_i hkh
+      split at h
+      · split at h
+        · cases h
+        · exact hrest l h
+        · split at h
+          · cases h
+          · rename_i l' hl'
+            injection h with h; subst h
+            intro p hp
+            simp only [List.mem_cons] at hp
+            rcases hp with rfl | hp
+            · exact ⟨by simp, hkh⟩
+            · exact hrest l' hl' p hp
+      · exact hrest l h
+
+theorem Disk.addPacked_inv {U : List Name} : ∀ (l : List (Name × Val)) (d : Disk), Disk.Inv U d →
+    (∀ p ∈ l, p.1 ∈ U ∧ validHexSha p.2 = true) → Disk.Inv U (Disk.addPacked d l) := by
+  intro l
+  induction l with
+  | nil => intro d hi _; exact hi
+  | cons e rest ih =>
+    intro d hi h
+    obtain ⟨ref, sha⟩ := e
+    simp only [Disk.addPacked]
+    apply ih _ ?_ (fun p hp => h p (by simp [hp]))
+    have he := h (ref, sha) (by simp)
+    refine ⟨?_, ?_, hi.dirs_in⟩
+    · intro k v hk
+      simp only at hk
+      by_cases hkr : k = ref
+      · subst hkr; rw [Map.get_del_eq] at hk; cases hk
+      · rw [Map.get_del_ne _ _ _ hkr] at hk; exact hi.files_in k v hk
+    · intro k v hk
+      simp only at hk
+      by_cases hkr : k = ref
+      · subst hkr; rw [Map.get_set_eq] at hk; injection hk with hk; subst hk; exact he
+      · rw [Map.get_set_ne _ _ _ _ hkr] at hk; exact hi.packed_in k v hk
+
+theorem Disk.Inv.packRefs {U : List Name} {d : Disk} (hi : Disk.Inv U d) (all : Bool) : Disk.Inv U (d.packRefs all).2 := by
+  unfold Disk.packRefs
+  cases hsel : Disk.packSelect d all d.allKeys with
+  | error e => exact hi
+  | ok l =>
+    simp only
+    apply Disk.addPacked_inv l d hi
+    intro p hp
+    obtain ⟨hk, hne⟩ := packSelect_mem d all _ l hsel p hp
+    have hval := Disk.packSelect_direct d all _ l (fun k _ _ => hi.readRef_direct k) hsel p hp
+    exact ⟨hi.allKeys_in hk hne, hi.readRef_hex p.1 p.2 hval⟩
+
+theorem Disk.Inv.stepOk {U : List Name} {d : Disk} (hi : d.Inv U) (hU : ∀ n ∈ U, checkRefname n = true)
+    (hnc : NonColliding U) (op : MOp) (hd : op.Direct) (hn : ∀ n ∈ op.names, n ∈ U) : d.StepOk op := by
+  cases op with
+  | setIfEquals n o v =>
+    have hnU := hn n (by simp [MOp.names])
+    have hreal : realname d.readRef n = n := realname_direct _ _ (hi.readRef_direct n)
+    refine ⟨hU n hnU, by simp [validRefValue, (show validHexSha v = true from hd)], ?_, ?_⟩
+    · rw [hreal]; exact hU n hnU
+    · rw [hreal]; exact hi.pathClear hU hnc hnU
+  | addIfNew n v =>
+    have hnU := hn n (by simp [MOp.names])
+    obtain ⟨w, hw⟩ := follow_direct d.readRef n (hi.readRef_direct n)
+    refine ⟨by simp [validRefValue, (show validHexSha v = true from hd)], ?_⟩
+    rw [hw]
+    simp only [List.getLast?_singleton, Option.getD_some]
+    refine ⟨hU n hnU, hi.pathClear hU hnc hnU, ?_⟩
+    intro hwn
+    subst hwn
+    obtain ⟨r, hlast, hread⟩ := followAux_none d.readRef _ _ _ _ hw
+    simp only [List.getLast?_singleton, Option.some.injEq] at hlast
+    subst hlast
+    cases hp : d.packed.get n with
+    | none => rfl
+    | some c =>
+      exfalso
+      have hc : c ≠ [] := hex_ne_nil (hi.packed_in n c hp).2
+      have hrr : ∃ x, d.readRef n = some x ∧ x ≠ [] := by
+        unfold Disk.readRef Disk.readLoose
+        split
+        · cases hg : d.files.get n with
+          | none => exact ⟨c, by simp [readRefOf, hp], hc⟩
+          | some x => exact ⟨x, readRefOf_some (hi.wf n x hg) _, hi.wf n x hg⟩
+        · exact ⟨c, by simp [readRefOf, hp], hc⟩
+      obtain ⟨x, hx, hxne⟩ := hrr
+      rcases hread with h | h
+      · rw [hx] at h; cases h
+      · rw [hx] at h; injection h with h; exact hxne h
+  | removeIfEquals n o =>
+    have hnU := hn n (by simp [MOp.names])
+    have := hi.pathClear hU hnc hnU
+    exact ⟨hU n hnU, fun p hp => (this.1 p hp).1, this.2⟩
+  | setSymbolicRef n t => exact absurd hd id
+  | packRefs all =>
+    intro k _ _
+    unfold Disk.isSymrefAt
+    cases hr : d.readRef k with
+    | none => rfl
+    | some c =>
+      simp only
+      cases hb : symref.isPrefixOf c with
+      | false => rfl
+      | true => exact absurd hb (hi.readRef_direct k c hr)
+  | reopen => trivial
+
+theorem Disk.Inv.step {U : List Name} {d : Disk} (hi : d.Inv U) (op : MOp) (hd : op.Direct)
+    (hn : ∀ n ∈ op.names, n ∈ U) : (d.step op).2.Inv U := by
+  cases op with
+  | setIfEquals n o v =>
+    have hnU := hn n (by simp [MOp.names])
+    have hreal : realname d.readRef n = n := realname_direct _ _ (hi.readRef_direct n)
+    have hv : validHexSha v = true := hd
+    simp only [Disk.step]
+    unfold Disk.setIfEquals
+    rw [hreal]
+    dsimp only
+    repeat' split
+    all_goals first
+      | exact hi
+      | exact Disk.lockMkdirs_inv ‹_› hnU hi
+      | exact Disk.commitFile_inv ‹_› hnU hv (Disk.lockMkdirs_inv ‹_› hnU hi)
+  | addIfNew n v =>
+    have hnU := hn n (by simp [MOp.names])
+    obtain ⟨w, hw⟩ := follow_direct d.readRef n (hi.readRef_direct n)
+    have hv : validHexSha v = true := hd
+    simp only [Disk.step]
+    unfold Disk.addIfNew
+    rw [hw]
+    dsimp only
+    simp only [List.getLast?_singleton, Option.getD_some]
+    by_cases hvv : validRefValue v = true
+    · simp only [hvv, Bool.not_true, Bool.false_eq_true, if_false]
+      cases w with
+      | some c => exact hi
+      | none =>
+        simp only [Option.isSome_none, Bool.false_eq_true, if_false]
+        by_cases hck : checkRefname n = true
+        · simp only [hck, Bool.not_true, Bool.false_eq_true, if_false]
+          cases hl : d.lockMkdirs n with
+          | error e => exact hi
+          | ok d1 =>
+            have hi1 := Disk.lockMkdirs_inv hl hnU hi
+            simp only
+            by_cases hpe : (d1.pathExists n || (d1.packed.get n).isSome) = true
+            · simp only [hpe, if_true]; exact hi1
+            · simp only [hpe, if_false]
+              cases hc : d1.commitFile n v with
+              | error e => exact hi1
+              | ok d2 => exact Disk.commitFile_inv hc hnU hv hi1
+        · simp only [hck, Bool.not_false, if_true]; exact hi
+    · simp only [hvv, Bool.not_false, if_true]; exact hi
+  | removeIfEquals n o =>
+    have hnU := hn n (by simp [MOp.names])
+    simp only [Disk.step]
+    unfold Disk.removeIfEquals
+    dsimp only
+    repeat' split
+    all_goals first
+      | exact hi
+      | exact Disk.lockMkdirs_inv ‹_› hnU hi
+      | exact Disk.remove_inv n (Disk.lockMkdirs_inv ‹_› hnU hi)
+  | setSymbolicRef n t => exact absurd hd id
+  | packRefs all => exact hi.packRefs all
+  | reopen => exact hi
 
 end Dulwich.Refs
